@@ -10,8 +10,8 @@ EXTENDS RegistryView, IOUtils, Json
 Trace == ndJsonDeserialize(IOEnv.VERIF_TRACE)
 VARIABLE l
 
-TSKeys == {"n", "s", "m", "o", "w"}
-TSSub == {"x", "y", "p", "q"}
+TSKeys == {"n", "s", "m", "o", "w", "v"}
+TSSub == {"x", "y", "p", "q", "e"}
 TracePaths == {<<a>> : a \in TSKeys} \cup {<<a, b>> : a \in TSKeys, b \in TSSub}
 
 RECURSIVE FromJ(_)
